@@ -2555,6 +2555,7 @@ class UnpivotClauseSegment(BaseSegment):
             ),
         ),
         Dedent,
+        Dedent,
     )
 
 
@@ -2577,7 +2578,6 @@ class SingleValueColumnUnpivotSegment(BaseSegment):
             ),
             parse_mode=ParseMode.GREEDY,
         ),
-        Dedent,
     )
 
 
